@@ -24,6 +24,8 @@ RULE = (
     "through a first index checkout with the same link type; every form with every link list (copy, "
     "hardlink, symlink, reflink+copy, hardlink+copy, symlink+copy; passed to apply or configured on the "
     "cache), delete on/off, old=None for an empty workspace; cache class, relink, update_meta, state on/off, "
+    "source role (cache ObjectStorage, or a FileStorage at role data/remote holding the target tree as plain "
+    "files, apply(storage=role), explicit/implicit forms), links passed or not passed at all (links=None), "
     "0-2 further cache storages registered at drawn target keys (each object lives only in the store its key "
     "resolves to), cache objects removed (source unavailable; not combined with further storages; optionally "
     "a non-raising index.onerror collector; afterwards the objects are restored and compare/apply is retried "
@@ -308,10 +310,18 @@ ONE_IN_4 = st.sampled_from([False] * 3 + [True])
 ONE_IN_6 = st.sampled_from([False] * 5 + [True])
 MISSING = st.lists(st.integers(0, 30), min_size=1, max_size=3)
 EXEC = st.lists(st.integers(0, 20), max_size=2)
-EMPTY_DIRS = st.lists(SEGS13, max_size=2)
+# names where one sibling directory is a string prefix of the other (joined-path prefix tests go wrong there)
+PREFIX_SIBLINGS = st.sampled_from([
+    [["a"], ["a.dir"]], [["sub"], ["sub2"]], [["b"], ["b-v2"]], [["x.y", "d"], ["x.y", "d old"]],
+    [["a", "c"], ["a", "c.1"]],
+])
+EMPTY_DIRS = st.one_of(st.lists(SEGS13, max_size=2), st.lists(SEGS13, max_size=2),
+                       st.lists(SEGS13, max_size=2), PREFIX_SIBLINGS)
+SOURCE = st.sampled_from(["cache"] * 3 + ["remote", "data"])
 LAZY = st.lists(st.sampled_from(list(range(10)) * 3 + [10, 11]), min_size=1, max_size=3)
 PRIOR_MODE = st.sampled_from(["plain", "plain", "checkout"])
 ONE_IN_3 = st.sampled_from([False, False, True])
+TWO_IN_3 = st.sampled_from([True, True, False])
 STORE = st.sampled_from(ops.STORE_KINDS)
 DELETE = st.sampled_from([True, True, True, False])
 DELETE_LAZY = st.sampled_from([True, True, False, False])
@@ -344,9 +354,11 @@ def cases(draw):
     edits = [draw(EDIT) for _ in range(draw(NEDITS))]
     if draw(ONE_IN_25):
         edits = [("wipe",)]
+    # a FileStorage addresses files by key; .dir objects live in object stores
+    source = "cache" if form == "lazy" else draw(SOURCE)
     missing = []
     update_meta = draw(st.booleans())
-    if links[0] != "symlink" and draw(ONE_IN_4):
+    if source == "cache" and links[0] != "symlink" and draw(ONE_IN_4):
         missing = draw(MISSING)
         update_meta = draw(ONE_IN_6)
     return {
@@ -358,7 +370,7 @@ def cases(draw):
         "edits": _jsonable(edits),
         "prior_mode": draw(PRIOR_MODE),
         "links": links,
-        "via_odb": draw(ONE_IN_3),
+        "via_odb": draw(ONE_IN_3) if source == "cache" else False,
         "store": draw(STORE),
         "delete": draw(DELETE_LAZY if form == "lazy" else DELETE),
         "mixed": draw(MIXED) if form in ("implicit", "lazy") else [],
@@ -369,9 +381,11 @@ def cases(draw):
         "missing": missing,
         "old_none": draw(st.booleans()),
         "old_hashes": draw(OLD_HASHES),
-        "stores": [] if missing else draw(STORES),
+        "stores": [] if (missing or source != "cache") else draw(STORES),
+        "source": source,
+        "links_none": draw(ONE_IN_3),
         "collect": draw(st.booleans()),
-        "old_dirhash": draw(st.booleans()) if form == "lazy" else False,
+        "old_dirhash": draw(TWO_IN_3) if form == "lazy" else False,
     }
 
 
@@ -426,7 +440,7 @@ def dir_entry_keys(case, model, lazy):
     return keys
 
 
-def make_target(model, dir_entries, lazy, odb, extra=()):
+def make_target(model, dir_entries, lazy, odb, extra=(), file_source=None):
     """A freshly constructed target index for the model. `dir_entries`: directory keys that get an explicit
     Meta(isdir=True) entry (all others are implicit: the index has entries below them only); `lazy`:
     directory keys given as unloaded .dir objects; `extra` = [(key, odb)]: further cache storages registered
@@ -450,6 +464,15 @@ def make_target(model, dir_entries, lazy, odb, extra=()):
         data = model.files[k]
         idx.add(DataIndexEntry(key=k, meta=Meta(size=len(data), isexec=k in model.execs),
                                hash_info=HashInfo("md5", ref.ref_hash(data))))
+    if file_source is not None:
+        # the target's data as plain files addressed by key (worktree-style remote / data storage)
+        from dvc_objects.fs.local import LocalFileSystem
+
+        from dvc_data.index import FileStorage
+
+        role, path = file_source
+        getattr(idx.storage_map, f"add_{role}")(FileStorage((), LocalFileSystem(), path))
+        return idx
     idx.storage_map.add_cache(ObjectStorage((), odb))
     for key, xodb in extra:
         idx.storage_map.add_cache(ObjectStorage(key, xodb))
@@ -621,7 +644,18 @@ def run_case(case, ctx):  # noqa: C901, PLR0912, PLR0915
         odb = ops.make_odb(case["store"], os.path.join(d, "cache"), **config)
 
         def links_arg():
-            return None if case["via_odb"] else list(links)
+            return None if (case["via_odb"] or case.get("links_none")) else list(links)
+
+        source = case.get("source", "cache")
+        file_source = None
+        if source != "cache":
+            srcdir = os.path.join(d, "src")
+            os.mkdir(srcdir)
+            for k, data in T.files.items():
+                os.makedirs(os.path.dirname(_join(srcdir, k)), exist_ok=True)
+                with open(_join(srcdir, k), "wb") as f:
+                    f.write(data)
+            file_source = (source, srcdir)
 
         # ---- cache contents -----------------------------------------------------------------
         # further cache storages at drawn target keys; an object lives only in the store its key
@@ -727,7 +761,7 @@ def run_case(case, ctx):  # noqa: C901, PLR0912, PLR0915
                     classes.append("old-dir-hashes")
             else:
                 classes.append("old=None")
-            target = make_target(T, dir_entries, lazy, odb, extra)
+            target = make_target(T, dir_entries, lazy, odb, extra, file_source)
             load_errors = []
             if case.get("collect"):
                 # a non-raising handler, as applications install to report all problems at once
@@ -754,7 +788,7 @@ def run_case(case, ctx):  # noqa: C901, PLR0912, PLR0915
             raised = None
             try:
                 apply(diff, ws, fs, update_meta=case["update_meta"], state=state, links=links_arg(),
-                      onerror=lambda *a: reported.append(a))
+                      onerror=lambda *a: reported.append(a), storage=source)
             except OSError as exc:
                 if not tolerated_escape(exc):
                     raise
@@ -796,7 +830,7 @@ def run_case(case, ctx):  # noqa: C901, PLR0912, PLR0915
                 out += survival(tag, aff)
                 # second compare: fresh old index with hashes, freshly constructed target
                 old2 = build_old(ws, state, root_entry=() in lazy)
-                target2 = make_target(T, dir_entries, lazy, odb, extra)
+                target2 = make_target(T, dir_entries, lazy, odb, extra, file_source)
                 diff2 = compare(old2, target2, delete=delete)
                 for name in ("files_create", "files_delete", "dirs_create", "dirs_delete"):
                     left = []
@@ -877,6 +911,12 @@ def run_case(case, ctx):  # noqa: C901, PLR0912, PLR0915
     nontrivial = bool(nonempty and not prior.same(T) and to_delete and (kind_change or nested_rm))
     classes += [f"form={form}", "links=" + "+".join(links), "delete=" + ("on" if delete else "off"),
                 f"store={case['store']}"]
+    if source != "cache":
+        classes.append(f"source=FileStorage:{source}")
+        if implicit_dirs and any(e not in prior.dirs for e in implicit_dirs):
+            classes.append("FileStorage:implicit-parent-missing-in-workspace")
+    if case.get("links_none") and not case["via_odb"]:
+        classes.append("links-not-passed")
     for flag in ("relink", "update_meta", "state", "via_odb"):
         if case[flag]:
             classes.append(flag)
